@@ -42,4 +42,22 @@ MUTANTS = [
     {"id": "c02-n-ior", "expect": "silent", "edits": [(L, "                            follow_sets[cur_symbol].update(first_sets[next_symbol])", "                            follow_sets[cur_symbol] |= first_sets[next_symbol]")]},
     {"id": "c02-n-table-update", "expect": "silent", "edits": [(L, "                    start_symbols |= first_sets[symbol]", "                    start_symbols.update(first_sets[symbol])")]},
     {"id": "c02-n-rename", "expect": "silent", "edits": [(L, "next_symbol", "following", 8)]},
+    {"id": "c02-prefix-of-last-pair", "expect": "fire", "edits": [(L, """        max_len = min(len(r.production) for r in prods_chunk)
+        common_prefix = list(prods_chunk[0].production[:max_len])
+        for prod_rule in prods_chunk[1:]:
+            for i, (s1, s2) in enumerate(zip(common_prefix, prod_rule.production)):
+                if s1 != s2:
+                    common_prefix = common_prefix[:i]
+                    break
+""", """        common_prefix = prods_chunk[0].production
+        for prev_rule, prod_rule in zip(prods_chunk, prods_chunk[1:]):
+            common_len = 0
+            for s1, s2 in zip(prev_rule.production, prod_rule.production):
+                if s1 != s2:
+                    break
+                common_len += 1
+            common_prefix = prod_rule.production[:common_len]
+        common_prefix = list(common_prefix)
+""")]},
+    {"id": "c02-n-prefix-loop-whole-chunk", "expect": "silent", "edits": [(L, "        for prod_rule in prods_chunk[1:]:\n            for i, (s1, s2) in enumerate(zip(common_prefix, prod_rule.production)):", "        for prod_rule in prods_chunk:\n            for i, (s1, s2) in enumerate(zip(common_prefix, prod_rule.production)):")]},
 ]
